@@ -71,7 +71,10 @@ CHECKS = [
         "note": "Assumed: lxml xpath results are 'the sequence of those attribute values'; Python built-ins (max, sorted, enumerate, "
                 "len, next, str.isdecimal, int()) by their stated contracts; pigeonhole facts for the 'never falls through' clauses "
                 "(stated assumptions); next_media_partname: every /ppt/media/media* part carries a number. Termination of "
-                "_next_ph_name's search is not proved. F6, F7, F8 found by these obligations and repaired by fix: commits.",
+                "_next_ph_name's search is not proved. F6, F7, F8 found by these obligations and repaired by fix: commits. "
+                "Whole-deck behaviour (ids of existing shapes and slides never change, a relationship id still referenced keeps its "
+                "target, part names unique, slide parts named in presentation order) is observed after every step of random "
+                "addition histories by the bounded C06.native_histories job (never counted as proved).",
     },
     {
         "property_id": "C08",
@@ -163,8 +166,11 @@ CHECKS = [
                 "f-strings, nsdecls, helper properties are just code); at the sink (parse_xml / chart XML text) each caller atom must "
                 "carry the qualifier of its lexical context (& < in content, plus the delimiting quote in an attribute value).",
         "note": "Assumed: escape()'s contract; lxml .set()/.text= store verbatim (those paths carry no obligation); chart data shapes are "
-                "enumerated, strings symbolic. Replays go through the public API with the string a\"b&<c. F4 (picture descr, movie "
-                "name, OLE progId, chart number formats) found by these obligations and repaired by four fix: commits.",
+                "enumerated, strings symbolic. Replays and the bounded C05.native_strings job go through the public API (picture / placeholder picture "
+                "/ movie file names, OLE prog id, chart series names, single- and multi-level categories, number formats, "
+                "replace_data) with 33 strings: markup characters, entity / character-reference / CDATA / comment / PI look-alikes, "
+                "format-spec look-alikes; a contract that leaves the supported subset runs every scenario as its stand-in. F4 (picture "
+                "descr, movie name, OLE progId, chart number formats) found by these obligations and repaired by four fix: commits.",
     },
     {
         "property_id": "C09",
@@ -180,8 +186,11 @@ CHECKS = [
                 "spacing (spcPct leg; None).",
         "note": "Assumed: lxml get/set/attrib are independent per attribute name; the save/re-open leg and the public properties not "
                 "in Part B (paragraph/space/margins/line width/slide size/rotation ...) are exercised only natively by the bounded "
-                "C09.native_reopen job (22 properties, independence, one save/re-open, None, out-of-domain values; never counted as "
-                "proved). IEEE doubles as reals. isinstance(value, Length) on symbolic ints is not expressible (spcPts leg native only).",
+                "C09.native_reopen job (22 properties, independence, one save/re-open, None, out-of-domain values) and by the "
+                "bounded C09.native_setget_sweep job (about 100 read/write properties of shapes, text, tables, charts, fills, lines "
+                "with hand-listed documented domains: every value assigned from two prior values, None where documented, the "
+                "object's other independent properties re-read, the final state compared after save/re-open; never counted as "
+                "proved). F38, F39 found by the sweep and repaired. IEEE doubles as reals. isinstance(value, Length) on symbolic ints is not expressible (spcPts leg native only).",
     },
     {
         "property_id": "C04",
